@@ -296,7 +296,7 @@ def fam_gen(maxlen=3):
     for bi, body in enumerate(GEN_BODIES):
         for n in range(1, maxlen + 1):
             for seq in itertools.product(range(len(GEN_OPS)), repeat=n):
-                calls = "".join("try { r = g.%s; o.push(r.value, r.done); } catch (e) { o.push('thr:'+e); }\n" % GEN_OPS[k] for k in seq)
+                calls = "".join("try { r = g.%s; o.push(r.value, r.done); } catch (e) { o.push('thr:'+(e instanceof Error ? e.name : e)); }\n" % GEN_OPS[k] for k in seq)
                 src = wrap_fn("var LOG=[]; function L(v){ LOG.push(v); }\nfunction* inner(){ try { var a = yield 'i1'; L('ia='+a); yield 'i2'; return 'ir'; } finally { L('ifin'); } }\n"
                               "function* G(){ %s }\nvar g = G(); var o = []; var r;\n%sreturn [o, LOG];" % (body, calls))
                 out.append(Case("gen:%d:%s" % (bi, "".join(map(str, seq))), src, quick=(n <= 3)))
